@@ -114,7 +114,9 @@ EnterBad(t, m, b, loc) ==
     /\ UNCHANGED <<S, pc, sel>>
     /\ Step(t, loc, TRUE)
 
-\* leaving a context (normally or by exception: same `finally` path)
+\* leaving a context: normally, by an Exception, or by a BaseException that is not an Exception
+\* (KeyboardInterrupt, GeneratorExit, SystemExit ...): the documented behaviour is the same restore.
+ExitHows == {"normal", "exception", "base_exception"}
 Exit(t, how) ==
     /\ pc[t].k = "idle" /\ Len(S.stack[t]) > 0
     /\ LET top == Top(S, t)
@@ -155,7 +157,7 @@ Next == \E t \in Threads :
           \/ \E m \in Mgrs, loc \in BOOLEAN :
                \/ \E b \in Names[m] : Set1(t, m, b, loc) \/ Enter(t, m, b, loc)
                \/ \E b \in BadNames[m] : SetBad(t, m, b, loc) \/ EnterBad(t, m, b, loc)
-          \/ \E how \in {"normal", "exception"} : Exit(t, how)
+          \/ \E how \in ExitHows : Exit(t, how)
 
 Spec == Init /\ [][Next]_vars
 
